@@ -121,7 +121,7 @@ pub fn packet_variant_pt(p: &Packet) -> Option<u8> {
 /// The spaces shared by C08 / C12 / C18.
 pub fn framing_spaces(tier: Tier) -> Vec<ByteSpace> {
     let bases = bytes::base_images();
-    let mut v = vec![bytes::s1_full(), bytes::s1_all_types(), bytes::dev1_space(bases.clone()), bytes::trunc_ext_space(bases.clone())];
+    let mut v = vec![bytes::s1_full(), bytes::s1_all_types(), bytes::s1_long_padded(), bytes::dev1_space(bases.clone()), bytes::trunc_ext_space(bases.clone())];
     match tier {
         Tier::Quick => v.push(bytes::dev2_space(bases, B12.to_vec(), 24)),
         Tier::Thorough => v.push(bytes::dev2_space(bases, b26(), 48)),
@@ -675,13 +675,10 @@ fn c12_case(s: &[u8], l: &mut Local) {
         Err(_) => l.hit("dispatch-agrees:err"),
     }
     // "unrecognised types yield an unknown packet that exposes the input unchanged": a version-2 string of an
-    // unrecognised type whose length field matches its length and whose padding (if the bit is set) is a legal
-    // count that fits has nothing a parser could object to
-    let pad_fine = s[0] & 0x20 == 0 || {
-        let p = *s.last().unwrap() as usize;
-        p > 0 && p % 4 == 0 && p <= s.len() - 4
-    };
-    if TP::from_pt(byte1).is_none() && pad_fine && read::framing_defects(s, None, 4).is_empty() {
+    // unrecognised type whose length field matches its length is yielded as Unknown. The padding bit and the last
+    // byte are not conditions: C08 gives the unknown-packet parser the size, version and length-field conditions
+    // only - the payload of a type the crate does not know, including what its last byte means, is opaque to it
+    if TP::from_pt(byte1).is_none() && read::unknown_framing_defects(s).is_empty() {
         match &generic {
             Ok(Packet::Unknown(_)) => l.hit("well-framed unknown type accepted"),
             other => {
